@@ -14,6 +14,9 @@ using namespace Avoid;
 #ifndef PEN
 #define PEN 50
 #endif
+#ifndef SCENE
+#define SCENE 1
+#endif
 struct Seg { double x0, y0, x1, y1; };
 // positive-length overlap of two collinear axis-parallel segments (branch-free)
 static bool collinear_overlap(const Seg &a, const Seg &b) {
@@ -45,16 +48,32 @@ extern "C" void harness(void) {
 #ifdef OPT_SHARED
     router->setRoutingOption(nudgeSharedPathsWithCommonEndPoint, false);
 #endif
+#if SCENE == 2
+    // a connector running along the bottom edge of a rectangle and a second one that has to go around the same rectangle:
+    // their segments meet in a nudging tie (allowed ranges touching in a single value)
+    Rectangle wall(Point(10, 10), Point(30, 30));
+    new ShapeRef(router, wall);
+    VBox wb = {10, 10, 30, 30};
+#ifdef AYFIX
+    double ay = AYFIX;
+#else
+    double ay = verif_coord(30, 33);
+#endif
+    double by = verif_coord(20, 28);
+    double ex[4] = {-10, 50, 0, 40}, ey[4] = {ay, ay, by, by};
+#else
     double wx = verif_coord(0, 6);
     Rectangle wall(Point(40 + wx, -200), Point(60 + wx, 40));
     new ShapeRef(router, wall);
     VBox wb = {40 + wx, -200, 60 + wx, 40};
     double s1y = verif_coord(0, 8), s2y = verif_coord(12, 20), d1y = verif_coord(0, 8), d2y = verif_coord(12, 20);
     double ex[4] = {0, 100, 6, 94}, ey[4] = {s1y, d1y, s2y, d2y};
+#endif
     ConnRef *c[2];
     c[0] = new ConnRef(router, ConnEnd(Point(ex[0], ey[0])), ConnEnd(Point(ex[1], ey[1])));
     c[1] = new ConnRef(router, ConnEnd(Point(ex[2], ey[2])), ConnEnd(Point(ex[3], ey[3])));
     router->processTransaction();
+    verif_band_nofork(1);       // the oracle below is branch-free: inexact comparisons stay may/must pairs
     for (int k = 0; k < 2; k++) {
         const PolyLine &r = c[k]->displayRoute(), &raw = c[k]->route();
         verif_out_int((int)r.size());
@@ -78,6 +97,7 @@ extern "C" void harness(void) {
         bool inner = (i > 1) & (i + 1 < a.size()) & (j > 1) & (j + 1 < b.size());
         if (inner) CHECK(!too_close(sa, sb, (double)NUDGE - 0x1p-10), "C10 separated inner segments are at least the nudging distance apart where the channel is wide enough");
     }
+    verif_band_nofork(0);
     WITNESS_POINT();
     delete router;
 }
